@@ -275,7 +275,10 @@ def check_meta(t, expect_qtype=None, expect_axis="any", expect_group="any", deq=
                 fails.append({"kind": "scale_count", "numel": int(scale.numel()), "axis": "None"})
         else:
             nd = t.ndim
-            ax = 0 if axis == 0 else nd - 1
+            if nd and not (-nd <= axis < nd):
+                fails.append({"kind": "axis_out_of_range", "axis": str(axis), "ndim": nd})
+                return fails
+            ax = axis % nd if nd else 0  # the axis that is *declared* (not "whatever is not 0")
             want = [1] * nd
             if nd:
                 want[ax] = t.shape[ax]
@@ -286,8 +289,10 @@ def check_meta(t, expect_qtype=None, expect_axis="any", expect_group="any", deq=
             fails.append({"kind": "zeropoint_layout", "zp": list(zp.shape), "scale": list(scale.shape)})
         if zp.dtype != torch.int8:
             fails.append({"kind": "zeropoint_dtype", "dtype": str(zp.dtype)})
-        if t.ndim >= 1 and numel:
-            ax = 0 if axis == 0 else t.ndim - 1
+        if t.ndim >= 1 and numel and axis is not None and not (-t.ndim <= axis < t.ndim):
+            fails.append({"kind": "axis_out_of_range", "axis": str(axis), "ndim": t.ndim})
+        elif t.ndim >= 1 and numel:
+            ax = (axis % t.ndim) if axis is not None else t.ndim - 1
             n_ax = t.shape[ax]
             per = numel // n_ax
             ngroups = n_ax * (per // gs if gs else 1)
